@@ -80,7 +80,7 @@ def eqf(a, b):
     return a.shape == b.shape and bool(np.all((a == b) | (np.isnan(a) & np.isnan(b))))
 
 
-def check_frame(col, scratch, kind, elems, ids, label, dask_too=True, deep=True):
+def check_frame(col, scratch, kind, elems, ids, label, dask_too=True, deep=True, pre=None):
     import dask.dataframe as dd
     import pandas as pd
     from spatialpandas import GeoDataFrame, GeoSeries, sjoin
@@ -90,7 +90,11 @@ def check_frame(col, scratch, kind, elems, ids, label, dask_too=True, deep=True)
     inert_pos = [i for i, r in enumerate(ids) if r >= 100]
     missing_pos = [i for i in inert_pos if elems[i] is None]
     case = {"kind": kind, "ids": ids, "inert": ["M" if elems[i] is None else "E" for i in inert_pos], "label": label}
-    arr = L.make_array(kind, elems, "float64")
+    if pre:
+        # the array under test is the slice [len(pre):] of a longer array (non-zero buffer / bitmap offsets)
+        arr = L.make_array(kind, list(pre) + list(elems), "float64")[len(pre):]
+    else:
+        arr = L.make_array(kind, elems, "float64")
     ref = L.make_array(kind, [elems[i] for i in valid_pos], "float64")
     col.count("evaluations")
     col.count("nontrivial")
@@ -314,6 +318,16 @@ def run(ctx):
             ids = [100, 101, 0, 1, 2, 3, 4, 5, 106, 107]
             # (ids 3..5 are valid duplicates of the base elements)
             check_frame(col, scratch, kind, el, ids, "ends_of_longer")
+            # 20 rows (the validity bitmap spans three bytes), inert rows around the byte boundaries, and its byte-aligned slices
+            base3 = BASE[kind]
+            el = [base3[i % 3] for i in range(20)]
+            ids = list(range(20))
+            for k, i in enumerate((1, 7, 8, 10, 15, 18)):
+                el[i] = inert_elem(types[k % 2])
+                ids[i] = 100 + i
+            check_frame(col, scratch, kind, el, ids, "long20", deep=False)
+            for off in (8, 16):
+                check_frame(col, scratch, kind, el[off:], ids[off:], f"long20[{off}:]", deep=False, pre=el[:off], dask_too=False)
             return
         for (Ln, pos) in pls:
             elems, ids = build(kind, Ln, pos, filling)
